@@ -528,35 +528,42 @@ func engineSched(f *rep.Flags, res *rep.Result) {
 		}
 	}
 	res.Bounds["scenarios"] = names
-	// separate free-running pass of the same bodies (no scheduler): meant for the -race build
+	// separate free-running pass of the same bodies (no scheduler)
 	if f.Shard == 0 {
-		n := 0
-		for i := range scens {
-			sc := &scens[i]
-			if !serves(sc, f.Prop) {
-				continue
-			}
-			for rep := 0; rep < 20; rep++ {
-				w, env := sc.setup(false)
-				var wg sync.WaitGroup
-				for t, ops := range sc.Threads {
-					wg.Add(1)
-					go func(t int, ops []op) {
-						defer wg.Done()
-						for _, o := range ops {
-							w.do(env, t, o)
-						}
-					}(t, ops)
-				}
-				wg.Wait()
-				if v, _ := w.verdict("ok"); len(v) > 0 {
-					res.Add(sigOf(f.Prop, sc.Name, v)+"|free-running", strings.Join(v, "\n  "), map[string]any{"scenario": sc.Name, "free_running": true})
-				}
-				n++
-			}
-		}
-		res.Bounds["free_running_runs"] = n
+		res.Bounds["free_running_runs"] = freeRun(f, res, 20)
 	}
+}
+
+// freeRun executes the scenario bodies without the scheduler (plain goroutines). Under the
+// cooperative scheduler every hand-off is a happens-before edge, which blinds the race
+// detector; this pass is what the -race build of the harness runs.
+func freeRun(f *rep.Flags, res *rep.Result, reps int) int {
+	n := 0
+	for i := range scens {
+		sc := &scens[i]
+		if !serves(sc, f.Prop) {
+			continue
+		}
+		for r := 0; r < reps; r++ {
+			w, env := sc.setup(false)
+			var wg sync.WaitGroup
+			for t, ops := range sc.Threads {
+				wg.Add(1)
+				go func(t int, ops []op) {
+					defer wg.Done()
+					for _, o := range ops {
+						w.do(env, t, o)
+					}
+				}(t, ops)
+			}
+			wg.Wait()
+			if v, _ := w.verdict("ok"); len(v) > 0 {
+				res.Add(sigOf(f.Prop, sc.Name, v)+"|free-running", strings.Join(v, "\n  "), map[string]any{"scenario": sc.Name, "free_running": true})
+			}
+			n++
+		}
+	}
+	return n
 }
 
 func replaySched(f *rep.Flags, prop string, raw json.RawMessage) int {
